@@ -208,4 +208,6 @@ def rule_raw_rows_dispatch(ctx):
     raw_rows_dispatch_table(ctx, "O16.6")
 
 
-RULES = [rule_sheet_selection, rule_cell_values, rule_xlsx_writer, rule_raw_rows_dispatch]
+from .common import rule_module_state  # noqa: E402
+
+RULES = [rule_sheet_selection, rule_cell_values, rule_xlsx_writer, rule_raw_rows_dispatch, rule_module_state]
